@@ -4,16 +4,16 @@
  * ?readrb, and the field lives in that routine's local buf[100]. */
 #if RB
 #define B(k) buf[k]
+#define BASE buf
 #define NUM (*num)
 #define SIZE (*size)
 #else
 #define B(k) in_buf[k]
+#define BASE in_buf
 #define NUM in_num
 #define SIZE in_size
 #endif
 #define BLANKS(q,a,b) FA(q, FW, ((a) <= q && q < (b)) ==> B(q) == ' ')
-/* blanks, and with COMMA=1 exactly one ',' (Fortran allows "kP,nEw.d") at ghost position g_pcomma */
-#define SEP(q,a,b) FA(q, FW, ((a) <= q && q < (b)) ==> B(q) == ((COMMA && q == g_pcomma) ? ',' : ' '))
 #define NUMAT(p,len,v) (0 <= (v) && (v) <= 99 && (((len) == 1 && (v) <= 9 && B(p) == '0' + (v)) || ((len) == 2 && B(p) == '0' + (v) / 10 && B((p) + 1) == '0' + (v) % 10)))
 #define INRANGE(p) (0 <= (p) && (p) < FW)
 #define ISLETTER(c) ((c) == 'E' || (c) == 'e' || (c) == 'D' || (c) == 'd' || (c) == 'F' || (c) == 'f')
